@@ -138,6 +138,8 @@ impl Mul<Scalar> for Challenge {
 #[derive(Debug)]
 pub struct ChallengeBuilder {
     hasher: Sha3_256,
+    #[cfg(feature = "verif-hooks")]
+    transcript: Vec<u8>,
 }
 
 impl Default for ChallengeBuilder {
@@ -151,6 +153,8 @@ impl ChallengeBuilder {
     pub fn new() -> Self {
         Self {
             hasher: Sha3_256::new(),
+            #[cfg(feature = "verif-hooks")]
+            transcript: Vec::new(),
         }
     }
 
@@ -167,6 +171,8 @@ impl ChallengeBuilder {
 
     /// Incorporate arbitrary bytes into the challenge.
     pub fn consume_bytes(&mut self, bytes: impl AsRef<[u8]>) {
+        #[cfg(feature = "verif-hooks")]
+        self.transcript.extend_from_slice(bytes.as_ref());
         self.hasher.update(bytes);
     }
 
@@ -186,6 +192,38 @@ impl ChallengeBuilder {
             u64::from_le_bytes(<[u8; 8]>::try_from(&digested[16..24]).unwrap()),
             u64::from_le_bytes(<[u8; 8]>::try_from(&digested[24..32]).unwrap()),
         ]);
+        #[cfg(feature = "verif-hooks")]
+        verif_hooks::record(&self.transcript, &scalar);
         Challenge(scalar)
+    }
+}
+
+/// Verification-only instrumentation: lets a simulation harness observe the transcript and
+/// challenge a [`ChallengeBuilder`] produced. Compiled only with the `verif-hooks` feature and
+/// inert unless recording has been switched on for the current thread.
+#[cfg(feature = "verif-hooks")]
+pub mod verif_hooks {
+    use super::Scalar;
+    use std::cell::{Cell, RefCell};
+
+    thread_local! {
+        static RECORDING: Cell<bool> = Cell::new(false);
+        static LOG: RefCell<Vec<(Vec<u8>, [u8; 32])>> = RefCell::new(Vec::new());
+    }
+
+    /// Switch recording of finished challenges on or off for the current thread.
+    pub fn set_recording(on: bool) {
+        RECORDING.with(|r| r.set(on));
+    }
+
+    /// Take every `(transcript, challenge)` pair recorded on this thread so far.
+    pub fn drain() -> Vec<(Vec<u8>, [u8; 32])> {
+        LOG.with(|l| std::mem::take(&mut *l.borrow_mut()))
+    }
+
+    pub(super) fn record(transcript: &[u8], challenge: &Scalar) {
+        if RECORDING.with(|r| r.get()) {
+            LOG.with(|l| l.borrow_mut().push((transcript.to_vec(), challenge.to_bytes())));
+        }
     }
 }
